@@ -407,7 +407,7 @@ class kFlowDecomp(pathmodel.AbstractPathModelDAG):
             # If paths contains strictly less than self.k paths, 
             # then we add arbitrary paths (i.e. we repeat the first path) with 0 weights to reach self.k paths.
             paths += [paths[0] for _ in range(self.k - len(paths))]
-            weights += [0 for _ in range(self.k - len(weights))]
+            weights += [self.weight_type(0) for _ in range(self.k - len(weights))]
             # self._solution = {
             #     "paths": paths,
             #     "weights": weights,
